@@ -59,6 +59,39 @@ impl<K: SimKernel<D>, const D: usize> Monitor<K, D> for C09 {
         let (Some(slot), Some(post)) = (slot, post) else { return };
         let kind = ctx.oprec.op.kind();
 
+        // (0) batch construction "skips and counts such inputs": with dedup off every input is
+        // inserted, skipped as a duplicate or skipped as degenerate - and counted as such; no two
+        // vertices of the result lie within the duplicate tolerance of each other
+        if let (Op::New { verts, opts, .. }, OutKind::Ok) = (&ctx.oprec.op, out.kind) {
+            ctx.stats.evaluations += 1;
+            if let Some((inserted, sd, sg, _)) = &out.cstats {
+                let dedup_off = matches!(opts.dedup.as_str(), "Off" | "Default" | "");
+                if dedup_off && inserted + sd + sg != verts.len() {
+                    push_violation(
+                        ctx.violations,
+                        violation("C09", "construction-skips-not-counted", ctx.step, format!("op=new|d={D}"), format!("{} inputs, statistics report inserted {inserted} + skipped_duplicate {sd} + skipped_degeneracy {sg}", verts.len())),
+                    );
+                }
+                if *inserted != post.verts.len() {
+                    push_violation(
+                        ctx.violations,
+                        violation("C09", "construction-inserted-count-wrong", ctx.step, format!("op=new|d={D}"), format!("statistics report {inserted} inserted, the result has {} vertices", post.verts.len())),
+                    );
+                }
+            }
+            for (i, v) in post.verts.iter().enumerate() {
+                let mut others = post.clone();
+                others.verts.remove(i);
+                if dup_model(&others, &v.coords) == Some(true) {
+                    push_violation(
+                        ctx.violations,
+                        violation("C09", "duplicate-committed", ctx.step, "op=new|construction".into(), format!("construction kept a vertex at {:?} within the duplicate tolerance of another kept vertex", v.coords)),
+                    );
+                    break;
+                }
+            }
+        }
+
         // (a) a vertex committed by insert* is not within tolerance of another live vertex
         if let (Op::Insert { v, .. }, Some(pre), OutKind::Ok) = (&ctx.oprec.op, pre, out.kind) {
             ctx.stats.evaluations += 1;
